@@ -9,7 +9,7 @@
 import random
 
 from .. import tlc, tlaval
-from ..common import CPUS, chunks, pmap
+from ..batch import run_batches
 
 MC_CFG = """SPECIFICATION Spec
 CONSTANTS
@@ -178,18 +178,22 @@ def run(ctx):
     cases = build_cases(ctx, rng, rules, genes)
     for idx, case in enumerate(cases):
         case["id"] = idx
-    events = [ev for part in pmap(observe_many, chunks(cases, CPUS * 4)) for ev in part]
-    by_id = {}
-    for case, event in zip(cases, events):
-        by_id[case["id"]] = {"op": "detect", "input": {"scene": case["scene"], "rules": case["rules"], "scale": case["scale"]},
-                             "call": call_text(case), "observed": event["out"], "features": features(case), "sampled": True}
+    samples = {}
+
+    def describe(case, event):
         if event["out"]["v"]:
             ctx.nontrivial_case(case["id"])
+        entry = {"op": "detect", "input": {"scene": case["scene"], "rules": case["rules"], "scale": case["scale"]},
+                 "call": call_text(case), "observed": event["out"], "features": features(case), "sampled": True}
+        if case["id"] in (0, len(cases) // 2, len(cases) - 1):
+            samples[case["id"]] = {"scene": case["scene"], "rules": [(r["name"], r["cutoff"], r["nbhd"], r["sup"]) for r in case["rules"]],
+                                   "observed": event["out"]}
+        return entry
+
     ctx.evaluations = len(cases)
-    ctx.validate("Detect_Trace", events, by_id, min_per_shard=150)
-    for case in (cases[0], cases[len(cases) // 2], cases[-1]):
-        ctx.sample({"scene": case["scene"], "rules": [(r["name"], r["cutoff"], r["nbhd"], r["sup"]) for r in case["rules"]],
-                    "observed": by_id[case["id"]]["observed"]})
+    run_batches(ctx, "Detect_Trace", cases, observe_many, describe, min_per_shard=150)
+    for ident in sorted(samples):
+        ctx.sample(samples[ident])
     ctx.exhaustive = False
     ctx.rule = (f"TLC enumerates {len(rules)} single rules (10 condition templates incl. EXTENDERS x cutoffs x neighbourhoods) and all "
                 "gene locations of length 1-2 (both strands, origin-spanning on rings) for records of 8/10/12 bases, linear and "
